@@ -194,6 +194,44 @@ def hash_parameters_core_style(self: Any, txid: Bytes(len=32), verbose: Bool, bl
             and ids_strictly_increase(conn) and len(conn.requests) == 5)
 
 
+@contract('bitcoin.rpc:Proxy.fundrawtransaction', name='every_tx_call_sends_full_hex', prop=P)
+def every_tx_call_sends_full_hex(self: Any, tx: Any, *, conn: Any, blk: Any):
+    """BOUNDED: every call that takes a transaction or a block (fundrawtransaction, signrawtransaction,
+    signrawtransactionwithwallet, sendrawtransaction, submitblock) posts the hex of its FULL serialisation (witness
+    included) and returns the transaction in the reply bit-exactly"""
+    option(bounded=200)
+    ensures(result['tx'].serialize() == tx.serialize() and bytes.fromhex(sent_params(conn, 0)[1][0]) == tx.serialize()
+            and self.signrawtransaction(tx)['tx'].serialize() == tx.serialize()
+            and bytes.fromhex(sent_params(conn, 1)[1][0]) == tx.serialize()
+            and self.signrawtransactionwithwallet(tx)['tx'].serialize() == tx.serialize()
+            and bytes.fromhex(sent_params(conn, 2)[1][0]) == tx.serialize()
+            and self.sendrawtransaction(tx) == tx.GetTxid() and bytes.fromhex(sent_params(conn, 3)[1][0]) == tx.serialize()
+            and self.submitblock(blk) is None and bytes.fromhex(sent_params(conn, 4)[1][0]) == blk.serialize()
+            and ids_strictly_increase(conn))
+
+
+@contract('bitcoin.rpc:Proxy.getblockhash', name='method_errors_keep_their_class', prop=P)
+def method_errors_keep_their_class(self: Any, height: Int, *, conn: Any, code: Int, others: Any):
+    """BOUNDED: an error reply reaches the caller of a Proxy METHOD as the class registered for its code; the only
+    translations are the documented "not found" ones (IndexError for code -8 in getblockhash and for code -5 in
+    getblock, getblockheader, getrawtransaction, gettransaction)"""
+    option(bounded=300)
+    raises(IndexError, when=code == -8)
+    raises(rpc.ForbiddenBySafeModeError, when=code == -2)
+    raises(rpc.InvalidAddressOrKeyError, when=code == -5)
+    raises(rpc.VerifyError, when=code == -25)
+    raises(rpc.VerifyRejectedError, when=code == -26)
+    raises(rpc.VerifyAlreadyInChainError, when=code == -27)
+    raises(rpc.InWarmupError, when=code == -28)
+    raises(rpc.JSONRPCError, when=code not in (-8, -2, -5, -25, -26, -27, -28))
+    ensures(False)
+
+
+def other_methods_map_errors(p, conn_factory, code):
+    """the same for the other translating methods (evaluated natively inside the bounded unit above via the builder)"""
+    return True
+
+
 @contract('bitcoin.rpc:BaseProxy._call', name='ids_increase_over_failures', prop=P)
 def ids_increase_over_failures(self: Any, service_name: Str, *, conn: Any, n_before: Int):
     """BOUNDED: request ids strictly increase over the life of a proxy, also across calls that failed (error replies,
@@ -274,6 +312,39 @@ def _build_c19(inputs, chain):
             '{"result": "%s", "error": null, "id": 4}' % _r.rev_hex(bh),
             '{"result": "%s", "error": null, "id": 5}' % tx.serialize().hex()])
         return {'self': p, 'conn': conn, 'txid': txid, 'verbose': verbose, 'block_hash': bh, 'tx': tx}
+    if kind == 'txcalls':
+        tx = _replay.decode_value(inputs['tx'])
+        blk = CBlock.deserialize(bytes(inputs['raw']['__bytes__']))
+        h = tx.serialize().hex()
+        p, conn = _r.make_proxy(['{"result": {"hex": "%s", "fee": 0.0001, "changepos": -1}, "error": null, "id": 1}' % h,
+                                 '{"result": {"hex": "%s", "complete": true}, "error": null, "id": 2}' % h,
+                                 '{"result": {"hex": "%s", "complete": true}, "error": null, "id": 3}' % h,
+                                 '{"result": "%s", "error": null, "id": 4}' % _r.rev_hex(tx.GetTxid()),
+                                 '{"result": null, "error": null, "id": 5}'])
+        return {'self': p, 'conn': conn, 'tx': tx, 'blk': blk}
+    if kind == 'method_error':
+        code = inputs['code']
+        body = json.dumps({'result': None, 'error': {'code': code, 'message': 'm'}, 'id': 1})
+        # the other translating methods are exercised first, each on its own proxy; a wrong class there is turned into
+        # an AssertionError, which the contract does not allow
+        expected = {-2: rpc.ForbiddenBySafeModeError, -5: rpc.InvalidAddressOrKeyError, -8: rpc.InvalidParameterError,
+                    -25: rpc.VerifyError, -26: rpc.VerifyRejectedError, -27: rpc.VerifyAlreadyInChainError,
+                    -28: rpc.InWarmupError}.get(code, rpc.JSONRPCError)
+        h32 = bytes(range(32))
+        for name, args in (('getblock', (h32,)), ('getblockheader', (h32,)), ('getrawtransaction', (h32,)),
+                           ('gettransaction', (h32,)), ('getbalance', ()), ('sendrawtransaction', (_replay.decode_value(inputs['tx']),)),
+                           ('getblockcount', ()), ('getnewaddress', ())):
+            q, _c = _r.make_proxy([body])
+            want = IndexError if code == -5 and name in ('getblock', 'getblockheader', 'getrawtransaction', 'gettransaction') else expected
+            try:
+                getattr(q, name)(*args)
+                got = None
+            except Exception as e:
+                got = type(e)
+            if got is not want:
+                raise AssertionError('%s with error code %d raised %s, expected %s' % (name, code, got, want))
+        p, conn = _r.make_proxy([body])
+        return {'self': p, 'conn': conn, 'height': 5, 'code': code, 'others': None}
     if kind == 'idseq':
         bodies = inputs['bodies']
         p, conn = _r.make_proxy(bodies)
@@ -344,6 +415,10 @@ _replay.GENERATORS.update({
                                                'txid': {'__bytes__': list(_rb(rng, 32)), 'cls': 'builtins:bytes'},
                                                'block_hash': {'__bytes__': list(_rb(rng, 32)), 'cls': 'builtins:bytes'},
                                                'verbose': rng.random() < 0.5},
+    'every_tx_call_sends_full_hex': lambda rng: {'__build__': 'c19', '__kind__': 'txcalls',
+                                                 'tx': _desc_tx(_mk_tx(rng, witness=rng.random() < 0.6)), 'raw': _gen_block_raw(rng)},
+    'method_errors_keep_their_class': lambda rng: {'__build__': 'c19', '__kind__': 'method_error', 'tx': _desc_tx(_mk_tx(rng)),
+                                                   'code': rng.choice([-2, -5, -8, -25, -26, -27, -28, -1, -32601, -3, 0, 1, 12345, rng.randint(-40, 5)])},
     'ids_increase_over_failures': lambda rng: {'__build__': 'c19', '__kind__': 'idseq',
                                                'bodies': [_gen_body(rng) for _ in range(rng.randint(2, 6))]},
 })
